@@ -249,17 +249,10 @@ func c05Base(c *Ctx, p *Prog) {
 		c.Undecided(R, "anchor:Name.Base/Parts", "", "not found")
 		return
 	}
-	// the splitter: the Name method with two []byte results called by Parts
-	var split *ssa.Function
-	eachInstr(parts, func(_ *ssa.BasicBlock, in ssa.Instruction) {
-		if call, ok := in.(*ssa.Call); ok {
-			if sc := call.Call.StaticCallee(); sc != nil && sc.Signature.Recv() != nil && recvName(sc.Signature.Recv().Type()) == "Name" && sc.Signature.Results().Len() == 2 {
-				split = sc
-			}
-		}
-	})
+	// the splitter: the Name method called by Parts that returns the two halves, or the index of the '-'
+	split, indexForm := c05FindSplitter(parts)
 	if split == nil {
-		c.Undecided(R, "anchor:splitter", p.pos(parts.Pos()), "Parts does not call a two-result splitter on the name")
+		c.Undecided(R, "anchor:splitter", p.pos(parts.Pos()), "Parts does not call a splitter (two slices, or the index of the '-') on the name")
 		return
 	}
 	site := p.pos(base.Pos())
@@ -272,11 +265,33 @@ func c05Base(c *Ctx, p *Prog) {
 	}
 	n := 0
 	for _, o := range outs {
-		var hasSlash *bool
+		var hasSlash, hasDash *bool
 		for _, k := range o.AtomKeys() {
 			v := o.Assign[k]
 			_ = v
 			s := o.AtomSyms[k]
+			if indexForm && s.Op == "binop" && len(s.Args) == 2 && !strings.Contains(s.String(), "bytes.IndexByte") && strings.Contains(s.String(), split.Name()) {
+				// the sign test on the splitter's index: which of -1 (no suffix), 0 (the name is only a suffix), 5 take this branch?
+				kc, onLeft := s.Args[1], false
+				if s.Args[0].isConst() {
+					kc, onLeft = s.Args[0], true
+				}
+				if kc.isConst() && kc.Const != nil && kc.Const.Kind() == constant.Int {
+					kv, _ := constant.Int64Val(kc.Const)
+					switch taken := c05SignTest(s.Tok, kv, onLeft, v); taken {
+					case "0 5":
+						t := true
+						hasDash = &t
+					case "-1":
+						f := false
+						hasDash = &f
+					default:
+						c.Bad(R, "Base:suffix-test", site, fmt.Sprintf("Base tests the index of the -N suffix in a way that is not 'present or absent' (this branch is taken for index in {%s}): for a name that is only a suffix (\"-8\") Base and Parts disagree", taken))
+						return
+					}
+				}
+				continue
+			}
 			if s.Op != "binop" || !strings.Contains(s.String(), "bytes.IndexByte") {
 				continue
 			}
@@ -356,9 +371,25 @@ func c05Base(c *Ctx, p *Prog) {
 				}
 			}
 			c.Check(ok, R, "Base[name has '/']", site, "the text before the first '/', untouched", "with a '/' in the name Base is not simply the text before the first '/': for 'Test-8/foo' Base and the first element of Parts disagree, so .name matches differently from the decomposition")
-		} else {
+		} else if !indexForm {
 			ok := res.Op == "extract" && res.Idx == 0 && res.Args[0].Op == "call" && strings.Contains(res.Args[0].Name, split.Name())
 			c.Check(ok, R, "Base[no '/']", site, "the splitter's prefix", "without '/' Base is not the prefix returned by the shared -N splitter")
+		} else {
+			// the splitter returns the index of the '-': the name up to it when there is one, the whole name otherwise
+			wholeName := func(s *Sym) bool {
+				return s.Op == "param" || (s.Op == "call" && strings.HasSuffix(strings.Split(s.Name, "@")[0], ".Full") && len(s.Args) == 1 && s.Args[0].Op == "param")
+			}
+			switch {
+			case hasDash == nil:
+				c.Bad(R, "Base[no '/']", site, "without '/' Base does not consult the shared -N splitter")
+			case *hasDash:
+				ok := res.Op == "slice" && len(res.Args) >= 3 && res.Args[2] != nil && wholeName(res.Args[0]) &&
+					(res.Args[1] == nil || res.Args[1].String() == "0" || res.Args[1].String() == "zero") &&
+					res.Args[2].Op == "call" && strings.Contains(res.Args[2].Name, split.Name())
+				c.Check(ok, R, "Base[no '/', -N]", site, "the name up to the splitter's index", "without '/' and with a -N suffix Base is not the name up to the index the shared splitter reports")
+			default:
+				c.Check(wholeName(res), R, "Base[no '/', no -N]", site, "the whole name", "without '/' and without -N suffix Base is not the whole name")
+			}
 		}
 	}
 	c.Floor(R, "Base cases", n, 2)
@@ -367,14 +398,22 @@ func c05Base(c *Ctx, p *Prog) {
 	// (a) the split result's second part is appended last, when non-nil
 	// (b) segments: append(buf[prev:i]) with prev := i at each '/', final append(buf[prev:])
 	okSeg, okTail, okGmp := false, false, false
-	var buf ssa.Value
+	// buf: the name without its -N part; gmp: that part (nil when there is none)
+	var buf, gmp ssa.Value
 	eachInstr(parts, func(_ *ssa.BasicBlock, in ssa.Instruction) {
-		if ex, ok := in.(*ssa.Extract); ok && ex.Index == 0 {
+		if ex, ok := in.(*ssa.Extract); ok {
 			if call, ok := ex.Tuple.(*ssa.Call); ok && call.Call.StaticCallee() == split {
-				buf = ex
+				if ex.Index == 0 {
+					buf = ex
+				} else {
+					gmp = ex
+				}
 			}
 		}
 	})
+	if indexForm {
+		buf, gmp = c05HalvesByIndex(parts, split)
+	}
 	for _, lp := range naturalLoops(parts) {
 		var prev *ssa.Phi
 		for _, in := range lp.Header.Instrs {
@@ -420,11 +459,9 @@ func c05Base(c *Ctx, p *Prog) {
 		if call, ok := in.(*ssa.Call); ok {
 			if bi, ok := call.Call.Value.(*ssa.Builtin); ok && bi.Name() == "append" {
 				for _, f := range factsAt(b) {
-					if bo, ok := f.Cond.(*ssa.BinOp); ok && bo.Op == token.NEQ && f.True {
-						if ex, ok := bo.X.(*ssa.Extract); ok && ex.Index == 1 {
-							if c2, ok := ex.Tuple.(*ssa.Call); ok && c2.Call.StaticCallee() == split {
-								okGmp = true
-							}
+					if bo, ok := f.Cond.(*ssa.BinOp); ok && bo.Op == token.NEQ && f.True && gmp != nil && bo.X == gmp {
+						if k, ok := bo.Y.(*ssa.Const); ok && k.IsNil() {
+							okGmp = true
 						}
 					}
 				}
@@ -435,18 +472,155 @@ func c05Base(c *Ctx, p *Prog) {
 		fmt.Sprintf("Parts does not partition the name (segment starts where previous ended: %v, final segment to the end: %v, -N part appended when present: %v): base followed by parts no longer reproduces the name", okSeg, okTail, okGmp))
 }
 
+// c05FindSplitter: the method of Name that fn calls to find the -N suffix. Two shapes: it returns the two halves
+// (prefix, suffix []byte; suffix nil when there is none), or the index of the '-' (-1 when there is none).
+func c05FindSplitter(fn *ssa.Function) (split *ssa.Function, indexForm bool) {
+	eachInstr(fn, func(_ *ssa.BasicBlock, in ssa.Instruction) {
+		call, ok := in.(*ssa.Call)
+		if !ok {
+			return
+		}
+		sc := call.Call.StaticCallee()
+		if sc == nil || sc.Blocks == nil || sc.Signature.Recv() == nil || recvName(sc.Signature.Recv().Type()) != "Name" {
+			return
+		}
+		res := sc.Signature.Results()
+		switch {
+		case res.Len() == 2:
+			split, indexForm = sc, false
+		case res.Len() == 1 && isInteger(res.At(0).Type()) && split == nil:
+			// an index-returning method that compares bytes with '-'
+			dash := false
+			eachInstr(sc, func(_ *ssa.BasicBlock, in2 ssa.Instruction) {
+				if bo, ok := in2.(*ssa.BinOp); ok {
+					if k, ok := constInt(bo.Y); ok && k == '-' {
+						dash = true
+					}
+				}
+			})
+			if dash {
+				split, indexForm = sc, true
+			}
+		}
+	})
+	return
+}
+
+// c05SignTest: the truth of `a op b` for the index values -1 (no '-'), 0 (the name starts with it) and 5: returns the
+// values for which the comparison has the given truth, e.g. "0 5" for present.
+func c05SignTest(tok token.Token, kv int64, onLeft bool, truth bool) string {
+	taken := ""
+	for _, idx := range []int64{-1, 0, 5} {
+		a, b := idx, kv
+		if onLeft {
+			a, b = kv, idx
+		}
+		var t bool
+		switch tok {
+		case token.LSS:
+			t = a < b
+		case token.LEQ:
+			t = a <= b
+		case token.GTR:
+			t = a > b
+		case token.GEQ:
+			t = a >= b
+		case token.EQL:
+			t = a == b
+		case token.NEQ:
+			t = a != b
+		}
+		if t == truth {
+			taken += fmt.Sprint(idx) + " "
+		}
+	}
+	return strings.TrimSpace(taken)
+}
+
+// c05HalvesByIndex: Parts with an index-returning splitter: d := n.split(); under d >= 0 (exactly: true for 0 and up,
+// false for -1) the two halves are n[:d] and n[d:], otherwise the whole name and nil. Returns the merged values.
+func c05HalvesByIndex(parts, split *ssa.Function) (buf, gmp ssa.Value) {
+	var d ssa.Value
+	eachInstr(parts, func(_ *ssa.BasicBlock, in ssa.Instruction) {
+		if call, ok := in.(*ssa.Call); ok && call.Call.StaticCallee() == split {
+			d = call
+		}
+	})
+	if d == nil {
+		return nil, nil
+	}
+	recv := ssa.Value(parts.Params[0])
+	present := func(b *ssa.BasicBlock) bool {
+		for _, f := range factsAt(b) {
+			bo, ok := f.Cond.(*ssa.BinOp)
+			if !ok {
+				continue
+			}
+			if k, ok := constInt(bo.Y); ok && bo.X == d && c05SignTest(bo.Op, k, false, f.True) == "0 5" {
+				return true
+			}
+			if k, ok := constInt(bo.X); ok && bo.Y == d && c05SignTest(bo.Op, k, true, f.True) == "0 5" {
+				return true
+			}
+		}
+		return false
+	}
+	absent := func(b *ssa.BasicBlock, succ *ssa.BasicBlock) bool {
+		// the edge b -> succ is taken only when d is -1
+		ifi, ok := b.Instrs[len(b.Instrs)-1].(*ssa.If)
+		if !ok {
+			return false
+		}
+		bo, ok := ifi.Cond.(*ssa.BinOp)
+		if !ok {
+			return false
+		}
+		truth := b.Succs[0] == succ
+		if b.Succs[0] == b.Succs[1] {
+			return false
+		}
+		if k, ok := constInt(bo.Y); ok && bo.X == d {
+			return c05SignTest(bo.Op, k, false, truth) == "-1"
+		}
+		if k, ok := constInt(bo.X); ok && bo.Y == d {
+			return c05SignTest(bo.Op, k, true, truth) == "-1"
+		}
+		return false
+	}
+	eachInstr(parts, func(b *ssa.BasicBlock, in ssa.Instruction) {
+		phi, ok := in.(*ssa.Phi)
+		if !ok || len(phi.Edges) != 2 {
+			return
+		}
+		for i, e := range phi.Edges {
+			sl, ok := stripConv(e).(*ssa.Slice)
+			if !ok || sl.X != recv || !present(b.Preds[i]) {
+				continue
+			}
+			other := stripConv(phi.Edges[1-i])
+			if !absent(b.Preds[1-i], b) {
+				continue
+			}
+			switch {
+			case sl.Low == nil && sl.High == d && other == recv:
+				buf = phi
+			case sl.Low == d && sl.High == nil:
+				if k, ok := other.(*ssa.Const); ok && k.IsNil() {
+					gmp = phi
+				}
+			}
+		}
+	})
+	return buf, gmp
+}
+
 func c05Splitter(c *Ctx, p *Prog) {
 	const R = "C05/R3"
 	parts := p.Method("benchfmt", "Name", "Parts")
 	var split *ssa.Function
+	indexForm := false
 	if parts != nil {
-		eachInstr(parts, func(_ *ssa.BasicBlock, in ssa.Instruction) {
-			if call, ok := in.(*ssa.Call); ok {
-				if sc := call.Call.StaticCallee(); sc != nil && sc.Signature.Recv() != nil && recvName(sc.Signature.Recv().Type()) == "Name" && sc.Signature.Results().Len() == 2 {
-					split = sc
-				}
-			}
-		})
+		split, indexForm = c05FindSplitter(parts)
 	}
 	if split == nil {
 		c.Undecided(R, "anchor:splitter", "", "not found")
@@ -460,18 +634,28 @@ func c05Splitter(c *Ctx, p *Prog) {
 		if !ok {
 			continue
 		}
-		second := stripConv(retVal(ret, 1))
-		if k, ok := second.(*ssa.Const); ok && k.IsNil() {
-			continue // no split
+		var cut ssa.Value
+		if indexForm {
+			idx := retVal(ret, 0)
+			if k, ok := constInt(idx); ok && k == -1 {
+				continue // no split
+			}
+			n++
+			cut = idx
+		} else {
+			second := stripConv(retVal(ret, 1))
+			if k, ok := second.(*ssa.Const); ok && k.IsNil() {
+				continue // no split
+			}
+			n++
+			sl, ok := second.(*ssa.Slice)
+			if !ok || sl.X != recv || sl.Low == nil {
+				c.Undecided(R, fmt.Sprintf("splitter:split-return#%d", n), p.pos(ret.Pos()), "the -N part is not a suffix slice of the name")
+				continue
+			}
+			cut = sl.Low
 		}
-		n++
 		key := fmt.Sprintf("splitter:split-return#%d", n)
-		sl, ok := second.(*ssa.Slice)
-		if !ok || sl.X != recv || sl.Low == nil {
-			c.Undecided(R, key, p.pos(ret.Pos()), "the -N part is not a suffix slice of the name")
-			continue
-		}
-		cut := sl.Low
 		dash, nonEmpty := false, false
 		for _, f := range factsAt(b) {
 			bo, ok := f.Cond.(*ssa.BinOp)
@@ -581,6 +765,9 @@ func c05Splitter(c *Ctx, p *Prog) {
 			nIter++
 			sort.Strings(other)
 			isSplit := o.Term == "return" && len(o.Results) == 2 && !(o.Results[1].isConst() && o.Results[1].IsNil)
+			if indexForm {
+				isSplit = o.Term == "return" && len(o.Results) == 1 && !(o.Results[0].isConst() && o.Results[0].String() == "-1")
+			}
 			c.Check(isSplit, R, fmt.Sprintf("splitter:dash-followed-by-bytes#%d", nIter), site, "a '-' followed by at least one byte ends the scan with a split",
 				fmt.Sprintf("at a '-' that is followed by at least one byte the splitter does not split when %s: names such as \"-8\" (a Benchmark line whose name is only the suffix) keep the suffix in .name and report no /gomaxprocs", strings.Join(other, " ∧ ")))
 		}
